@@ -2,13 +2,14 @@ import BctVerif.Model.Basic
 /-!
 # Executable model of the algebraic graph measures of bctpy (property C04)
 
-Exact `Int` / `Rat` models of
-`degrees_und/dir`, `strengths_und/dir/und_sign`, `density_und/dir`,
-`clustering_coef_bu/bd/wu/wd`, `transitivity_bu/bd/wu/wd` (the weighted variants take the matrix of
-cube roots as input), `matching_ind`, `edge_nei_overlap_bu/bd` (matrix output), `flow_coef_bd`,
-`rich_club_bu/bd`, `assortativity_bin` (flags 0‑4), `assortativity_wei` (flag 0), `participation_coef`,
-`kcore_bu/bd`, `score_wu`, `kcoreness_centrality_bu/bd`, `distance_bin`, `reachdist`,
-`efficiency_bin` (global), `gtom`.
+Exact `Int` / `Rat` models of the measures that no other slice models:
+`strengths_und_sign`, `density_und/dir`, `matching_ind`, `edge_nei_overlap_bu/bd` (matrix output), `gtom`,
+`flow_coef_bd`, `rich_club_bu/bd`, `assortativity_bin` (flags 0‑4), `assortativity_wei` (flag 0).
+(Degrees/strengths, clustering/transitivity, distances/efficiencies, betweenness, cores, components, participation /
+z-score, PageRank / subgraph series are modelled by `Model/Cluster, Dist, Between, Core, Comp, Partition, Walks`;
+`Props/C04.lean` proves equivariance of *those* executable models.  `degreesUnd`, `degreesDir`, `strengthsUnd` below are
+the degree vectors used inside rich club / assortativity; `Lemmas/MeasuresCluster.lean` proves them equal to the
+`Cluster` ones.)
 
 Matrices are `AMat Int n`; every intermediate matrix is materialised (`AMat.ofFn`), never a closure.
 Float results that can be `inf`/`nan` in NumPy are `XRat`; Python-level `ZeroDivisionError`s are `Except`.
@@ -78,7 +79,6 @@ def degreesDir (A : AMat Int n) : Vector Int n × Vector Int n × Vector Int n :
    Vector.ofFn fun i => colSum (bin A) i + rowSum (bin A) i)
 
 def strengthsUnd (A : AMat Int n) : Vector Int n := Vector.ofFn fun j => colSum A j
-def strengthsDir (A : AMat Int n) : Vector Int n := Vector.ofFn fun i => colSum A i + rowSum A i
 
 /-- `strengths_und_sign`: diagonal cleared, then positive / negative column sums and totals -/
 def strengthsUndSign (A : AMat Int n) : Vector Int n × Vector Int n × Int × Int :=
@@ -98,52 +98,6 @@ def densityDir (A : AMat Int n) : Except MErr (Rat × Nat × Int) :=
 def densityUnd (A : AMat Int n) : Except MErr (Rat × Nat × Int) :=
   let k := fsum fun i => fsum fun j => if i ≤ j then nz (A.get i j) else 0
   if n * n - n = 0 then .error .zeroDiv else .ok ((k : Rat) / (((n * n - n : Nat) : Rat) / 2), n, k)
-
-/-! ## clustering.py -/
-
-/-- `clustering_coef_bu` -/
-def clusteringBu (G : AMat Int n) : Vector Rat n := Vector.ofFn fun u =>
-  let k : Int := fsum fun v => nz (G.get u v)
-  if 2 ≤ k then
-    ((fsum fun v => fsum fun w => if G.get u v ≠ 0 ∧ G.get u w ≠ 0 then G.get v w else 0 : Int) : Rat) / ((k * k - k : Int) : Rat)
-  else 0
-
-/-- common core of `clustering_coef_bd` (`S = A + Aᵀ`, `Ae = A`) and `clustering_coef_wd`
-(`S = R + Rᵀ` with `R` the cube roots of the weights, `Ae` = nonzero pattern): per node
-`(cyc3, CYC3)` with `cyc3 = diag(S³)/2`, `CYC3 = K(K-1) - 2 diag(Ae²)`, `K` = row sums of `Ae + Aeᵀ` -/
-def cycD (S Ae : AMat Int n) : Vector (Rat × Rat) n :=
-  let S3 := mmul S (mmul S S)
-  let A2 := mmul Ae Ae
-  let T := madd Ae (mtr Ae)
-  Vector.ofFn fun i =>
-    let K := rowSum T i
-    (((S3.get i i : Int) : Rat) / 2, ((K * (K - 1) - 2 * A2.get i i : Int) : Rat))
-
-/-- `K[cyc3 == 0] = inf; C = cyc3 / CYC3` -/
-def coefOf (c : Rat × Rat) : XRat := if c.1 = 0 then .fin 0 else xdiv c.1 c.2
-
-def clusteringBd (A : AMat Int n) : Vector XRat n := (cycD (madd A (mtr A)) A).map coefOf
-/-- `clustering_coef_wd` on `W = R³` (entrywise) -/
-def clusteringWd (R : AMat Int n) : Vector XRat n := (cycD (madd R (mtr R)) (bin R)).map coefOf
-
-/-- `clustering_coef_wu` on `W = R³`: per node `(cyc3, K(K-1))` -/
-def cycU (R : AMat Int n) : Vector (Rat × Rat) n :=
-  let R3 := mmul R (mmul R R)
-  Vector.ofFn fun i =>
-    let K := rowSum (bin R) i
-    (((R3.get i i : Int) : Rat), ((K * (K - 1) : Int) : Rat))
-def clusteringWu (R : AMat Int n) : Vector XRat n := (cycU R).map coefOf
-
-def vsum1 (v : Vector (Rat × Rat) n) : Rat := fsum fun i => (vget v i).1
-def vsum2 (v : Vector (Rat × Rat) n) : Rat := fsum fun i => (vget v i).2
-
-/-- `transitivity_bu`: `trace(A³) / (sum(A²) - trace(A²))` -/
-def transitivityBu (A : AMat Int n) : XRat :=
-  let A2 := mmul A A
-  xdiv (trace (mmul A A2) : Int) ((total A2 - trace A2 : Int) : Rat)
-def transitivityBd (A : AMat Int n) : XRat := let c := cycD (madd A (mtr A)) A; xdiv (vsum1 c) (vsum2 c)
-def transitivityWd (R : AMat Int n) : XRat := let c := cycD (madd R (mtr R)) (bin R); xdiv (vsum1 c) (vsum2 c)
-def transitivityWu (R : AMat Int n) : XRat := let c := cycU R; xdiv (vsum1 c) (vsum2 c)
 
 /-! ## similarity.py -/
 
@@ -193,9 +147,10 @@ def gtomAux (bm : AMat Int n) : Nat → AMat Int n
   | 0 => bm
   | s + 1 => gtomSweep (gtomAux bm s)
 
-/-- `gtom(adj, nr_steps)` for `nr_steps ≥ 1` (`nr_steps = 0` returns `bm`, see `step`) -/
+/-- `gtom(adj, nr_steps)`; `nr_steps = 0` returns `bm` -/
 def gtom (A : AMat Int n) (nrSteps : Nat) : AMat XRat n :=
   let bm := bin A
+  if nrSteps = 0 then AMat.ofFn fun i j => .fin (bm.get i j) else
   let B := gtomAux bm (nrSteps - 2)
   let BB := mmul B B
   AMat.ofFn fun i j =>
@@ -234,64 +189,9 @@ def nanToZero : XRat → XRat | .nan => .fin 0 | x => x
 def flowCoef (A : AMat Int n) : Vector XRat n × Vector Int n :=
   (Vector.ofFn fun v => nanToZero (flowNode A v).1, Vector.ofFn fun v => (flowNode A v).2)
 
-/-- `np.unique(ci, return_inverse=True)[1] + 1`: rank of the label among the distinct labels, from 1 -/
-def rankLabels (ci : Vector Nat n) : Vector Nat n := Vector.ofFn fun i =>
-  ((List.range (vget ci i)).filter fun c => fany fun k => (vget ci k) == c).length + 1
-
-/-- `participation_coef(W, ci)` (out-neighbours; `degree='in'` is the transpose) -/
-def participation (W : AMat Int n) (ci : Vector Nat n) : Vector Rat n :=
-  let r := rankLabels ci
-  let m := fmax fun i => (vget r i)
-  Vector.ofFn fun i =>
-    let Ko := rowSum W i
-    let Kc2 : Int := ((List.range m).map fun c =>
-      let s := fsum fun j => if W.get i j ≠ 0 ∧ (vget r j) = c + 1 then W.get i j else 0
-      s * s).sum
-    if Ko = 0 then 0 else 1 - (Kc2 : Rat) / ((Ko * Ko : Int) : Rat)
-
 /-! ## core.py -/
 
-/-- `CIJkcore[ff, :] = 0; CIJkcore[:, ff] = 0` -/
-def zeroNodes (C : AMat Int n) (ff : Vector Bool n) : AMat Int n :=
-  AMat.ofFn fun i j => if (vget ff i) || (vget ff j) then 0 else C.get i j
-
-/-- the peeling loop shared by `kcore_bu`, `kcore_bd`, `score_wu` (`deg` = the degree / strength used) -/
-def peel (deg : AMat Int n → Vector Int n) (k : Int) : Nat → AMat Int n → Except MErr (AMat Int n × Vector Int n)
-  | 0, _ => .error .fuel
-  | fuel + 1, C =>
-    let d := deg C
-    let ff : Vector Bool n := Vector.ofFn fun i => (vget d i) < k && (vget d i) > 0
-    if fany fun i => (vget ff i) then peel deg k fuel (zeroNodes C ff) else .ok (C, d)
-
-def countPos (d : Vector Int n) : Int := fsum fun i => if (vget d i) > 0 then 1 else 0
-
 def degTotal (A : AMat Int n) : Vector Int n := (degreesDir A).2.2
-
-def kcoreBu (A : AMat Int n) (k : Int) : Except MErr (AMat Int n × Int) :=
-  (peel degreesUnd k (n + 1) A).map fun r => (r.1, countPos r.2)
-def kcoreBd (A : AMat Int n) (k : Int) : Except MErr (AMat Int n × Int) :=
-  (peel degTotal k (n + 1) A).map fun r => (r.1, countPos r.2)
-def scoreWu (A : AMat Int n) (s : Int) : Except MErr (AMat Int n × Int) :=
-  (peel strengthsUnd s (n + 1) A).map fun r => (r.1, countPos r.2)
-
-/-- `for k in range(N): core, kn[k] = kcore(CIJ, k); coreness[colsum(core) > 0] = k` -/
-def corenessLoop (kc : AMat Int n → Int → Except MErr (AMat Int n × Int)) (A : AMat Int n) :
-    List Nat → Vector Int n → List Int → Except MErr (Vector Int n × List Int)
-  | [], cor, kn => .ok (cor, kn.reverse)
-  | k :: ks, cor, kn =>
-    match kc A k with
-    | .error e => .error e
-    | .ok (C, knk) =>
-      corenessLoop kc A ks (Vector.ofFn fun i => if colSum C i > 0 then (k : Int) else (vget cor i)) (knk :: kn)
-
-def kcorenessBd (A : AMat Int n) : Except MErr (Vector Int n × List Int) :=
-  corenessLoop kcoreBd A (List.range n) (Vector.ofFn fun _ => 0) []
-
-/-- `kcoreness_centrality_bu`: symmetrises (`CIJ + CIJ.T > 0`) when some cell of `CIJ + CIJ.T` exceeds 1 -/
-def kcorenessBu (A : AMat Int n) : Except MErr (Vector Int n × List Int) :=
-  let U := madd A (mtr A)
-  let A' : AMat Int n := if (fany fun i => fany fun j => U.get i j > 1) then AMat.ofFn fun i j => if U.get i j > 0 then 1 else 0 else A
-  corenessLoop kcoreBu A' (List.range n) (Vector.ofFn fun _ => 0) []
 
 /-- `rich_club_bu/bd` at level `k` (0-based): nodes with `deg > k+1` → `(Nk, Ek)` -/
 def richLevel (A : AMat Int n) (deg : Vector Int n) (k : Nat) : Int × Int :=
@@ -340,101 +240,11 @@ def assortativityWei0 (A : AMat Int n) : XRat :=
   let s := strengthsUnd A
   assortOf (assortSums (fun i j => i < j && A.get i j > 0) s s)
 
-/-! ## distance.py -/
-
-def anyNz (L : AMat Int n) : Bool := fany fun i => fany fun j => L.get i j != 0
-/-- `D += n * L` -/
-def dbStepD (D L : AMat Int n) (cnt : Int) : AMat Int n := AMat.ofFn fun i j => D.get i j + cnt * L.get i j
-/-- `L = (nPATH != 0) * (D == 0)` -/
-def dbStepL (P D : AMat Int n) : AMat Int n := AMat.ofFn fun i j => if P.get i j ≠ 0 ∧ D.get i j = 0 then 1 else 0
-def eye : AMat Int n := AMat.ofFn fun i j => if i = j then 1 else 0
-
-/-- the `while np.any(L)` loop of `distance_bin` / `efficiency_bin.distance_inv` -/
-def dbLoop (G : AMat Int n) : Nat → (D nPATH L : AMat Int n) → Int → Except MErr (AMat Int n)
-  | 0, _, _, _, _ => .error .fuel
-  | fuel + 1, D, nPATH, L, cnt =>
-    if anyNz L then
-      let D' := dbStepD D L cnt
-      let nPATH' := mmul nPATH G
-      dbLoop G fuel D' nPATH' (dbStepL nPATH' D') (cnt + 1)
-    else .ok D
-
-/-- the matrix `D` at the end of the loop (0 = not reached, diagonal 1) -/
-def distRaw (G : AMat Int n) : Except MErr (AMat Int n) :=
-  dbLoop G (n + 2) eye G (bin G) 1
-
-/-- `distance_bin`: `none` = `inf` -/
-def distanceBin (A : AMat Int n) : Except MErr (AMat (Option Int) n) :=
-  (distRaw (bin A)).map fun D => AMat.ofFn fun i j => if i = j then some 0 else if D.get i j = 0 then none else some (D.get i j)
-
-/-- `efficiency_bin(G)` (global): `sum(1/D off the diagonal) / (n*n - n)` (NumPy division: `nan` for n = 1) -/
-def efficiencyBin (A : AMat Int n) : Except MErr XRat :=
-  (distRaw (bin A)).map fun D =>
-    xdiv (fsum fun i => fsum fun j => if i = j ∨ D.get i j = 0 then (0 : Rat) else 1 / (D.get i j : Rat)) ((n * n - n : Nat) : Rat)
-
-/-- `R = np.logical_or(R, CIJpwr != 0)` -/
-def rdStepR (R Cp : AMat Int n) : AMat Int n := AMat.ofFn fun i j => if R.get i j ≠ 0 ∨ Cp.get i j ≠ 0 then 1 else 0
-/-- `np.any(R[np.ix_(row, col)] == 0)` -/
-def rdOpen (row col : Vector Bool n) (R : AMat Int n) : Bool :=
-  fany fun i => fany fun j => vget row i && vget col j && R.get i j == 0
-
-/-- the recursion `reachdist2` -/
-def rdLoop (C : AMat Int n) (row col : Vector Bool n) : Nat → (Cp R D : AMat Int n) → Nat → Except MErr (AMat Int n × AMat Int n × Nat)
-  | 0, _, _, _, _ => .error .fuel
-  | fuel + 1, Cp, R, D, powr =>
-    let Cp' := mmul Cp C
-    let R' := rdStepR R Cp'
-    let D' := madd D R'
-    if powr ≤ n && rdOpen row col R' then
-      rdLoop C row col fuel Cp' R' D' (powr + 1)
-    else .ok (R', D', powr)
-
-/-- `D = powr - D + 1; D[D == n + 2] = inf; D[:, id0] = inf; D[od0, :] = inf` (`none` = `inf`) -/
-def rdFinish (row col : Vector Bool n) (D : AMat Int n) (powr : Nat) : AMat (Option Int) n :=
-  AMat.ofFn fun i j =>
-    let d := (powr : Int) - D.get i j + 1
-    if d = (n : Int) + 2 ∨ !vget col j ∨ !vget row i then none else some d
-
-def nzCols (C : AMat Int n) : Vector Bool n := Vector.ofFn fun j => colSum C j != 0
-def nzRows (C : AMat Int n) : Vector Bool n := Vector.ofFn fun i => rowSum C i != 0
-
-/-- `reachdist(CIJ)` → (R, D) -/
-def reachdist (A : AMat Int n) : Except MErr (AMat Int n × AMat (Option Int) n) :=
-  let C := bin A
-  (rdLoop C (nzRows C) (nzCols C) (n + 2) C C C 2).map fun r => (r.1, rdFinish (nzRows C) (nzCols C) r.2.1 r.2.2)
-
-/-! ## spectral measures: exact definitions (the eigen-solver / LAPACK is not modelled) -/
-
-/-- `sgLoop A r k P fact acc`: `r` more terms, `P = A^k`, `fact = k!` -/
-def sgLoop (A : AMat Int n) : Nat → Nat → AMat Int n → Nat → Vector Rat n → Vector Rat n
-  | 0, _, _, _, acc => acc
-  | r + 1, k, P, fact, acc =>
-    sgLoop A r (k + 1) (mmul P A) (fact * (k + 1)) (Vector.ofFn fun i => vget acc i + ((P.get i i : Int) : Rat) / (fact : Rat))
-
-/-- partial sum `Σ_{k<K} (A^k)_{ii} / k!` of the series whose limit is `subgraph_centrality` -/
-def subgraphSeries (A : AMat Int n) (K : Nat) : Vector Rat n := sgLoop A K 0 eye 1 (Vector.ofFn fun _ => 0)
-
-def mulVecQ (M : AMat Rat n) (v : Vector Rat n) : Vector Rat n := Vector.ofFn fun i => fsum fun j => M.get i j * vget v j
-
-/-- the matrix `B = I - d * A * diag(1/deg)` of `pagerank_centrality` (`deg` = column sums, zeros replaced by 1) -/
-def prMatrix (A : AMat Int n) (d : Rat) : AMat Rat n := AMat.ofFn fun i j =>
-  (if i = j then 1 else 0) - d * ((A.get i j : Int) : Rat) / (if colSum A j = 0 then 1 else ((colSum A j : Int) : Rat))
-
-/-- `r` is the PageRank vector of `A` for damping `d` and prior `f` (`B r' = (1-d) f/Σf`, `r = r'/Σr'`) -/
-def IsPagerank (A : AMat Int n) (d : Rat) (f r : Vector Rat n) : Prop :=
-  ∃ r' : Vector Rat n, mulVecQ (prMatrix A d) r' = Vector.ofFn (fun i => (1 - d) * (vget f i / fsum fun k => vget f k)) ∧
-    r = Vector.ofFn fun i => vget r' i / fsum fun k => vget r' k
-
-/-- `v` is an eigenvector of `A` for the eigenvalue `lam` (rational case) -/
-def IsEigvec (A : AMat Int n) (lam : Rat) (v : Vector Rat n) : Prop :=
-  mulVecQ (AMat.ofFn fun i j => ((A.get i j : Int) : Rat)) v = Vector.ofFn fun i => lam * vget v i
-
 /-! ## driver -/
 
 def showRat (q : Rat) : String := if q.den = 1 then toString q.num else s!"{q.num}/{q.den}"
 def XRat.str : XRat → String
   | .fin q => showRat q | .pinf => "inf" | .ninf => "-inf" | .nan => "nan"
-def showOptInt : Option Int → String | none => "inf" | some d => toString d
 
 def showVec {α : Type} (f : α → String) (v : Vector α n) : String :=
   if n = 0 then "-" else ",".intercalate (v.toList.map f)
@@ -443,10 +253,6 @@ def showMatBy {α : Type} (f : α → String) (M : AMat α n) : String :=
 def showList {α : Type} (f : α → String) (xs : List α) : String :=
   if xs.isEmpty then "-" else ",".intercalate (xs.map f)
 
-def parseVecNat (n : Nat) (s : String) : Option (Vector Nat n) := do
-  let xs ← parseNats s
-  if h : xs.length = n then some ⟨xs.toArray, by simp [h]⟩ else none
-
 def errLine (e : MErr) : String := s!"error={e.str}"
 
 def step (line : String) : String :=
@@ -454,14 +260,9 @@ def step (line : String) : String :=
   let res : Option String := do
     let n ← (← lookup kv "n").toNat?
     let A ← parseMat n (← lookup kv "R")
-    let intArg (k : String) : Option Int := do (← lookup kv k).toInt?
     let natArg (k : String) : Option Nat := do (← lookup kv k).toNat?
     let si := fun (x : Int) => toString x
     match op with
-    | "degrees_und" => some s!"deg={showVec si (degreesUnd A)}"
-    | "degrees_dir" => let d := degreesDir A; some s!"id={showVec si d.1} od={showVec si d.2.1} deg={showVec si d.2.2}"
-    | "strengths_und" => some s!"str={showVec si (strengthsUnd A)}"
-    | "strengths_dir" => some s!"str={showVec si (strengthsDir A)}"
     | "strengths_und_sign" =>
       let r := strengthsUndSign A
       some s!"Spos={showVec si r.1} Sneg={showVec si r.2.1} vpos={r.2.2.1} vneg={r.2.2.2}"
@@ -469,14 +270,6 @@ def step (line : String) : String :=
       | .error e => some (errLine e) | .ok r => some s!"kden={showRat r.1} n={r.2.1} k={r.2.2}")
     | "density_und" => (match densityUnd A with
       | .error e => some (errLine e) | .ok r => some s!"kden={showRat r.1} n={r.2.1} k={r.2.2}")
-    | "clustering_coef_bu" => some s!"C={showVec showRat (clusteringBu A)}"
-    | "clustering_coef_bd" => some s!"C={showVec XRat.str (clusteringBd A)}"
-    | "clustering_coef_wd" => some s!"C={showVec XRat.str (clusteringWd A)}"
-    | "clustering_coef_wu" => some s!"C={showVec XRat.str (clusteringWu A)}"
-    | "transitivity_bu" => some s!"T={(transitivityBu A).str}"
-    | "transitivity_bd" => some s!"T={(transitivityBd A).str}"
-    | "transitivity_wd" => some s!"T={(transitivityWd A).str}"
-    | "transitivity_wu" => some s!"T={(transitivityWu A).str}"
     | "matching_ind" =>
       let r := matchingInd A
       some s!"Min={showMatBy showRat r.1} Mout={showMatBy showRat r.2.1} Mall={showMatBy showRat r.2.2}"
@@ -484,31 +277,10 @@ def step (line : String) : String :=
       | .error e => some (errLine e) | .ok EC => some s!"EC={showMatBy XRat.str EC}")
     | "gtom" => do
       let s ← natArg "steps"
-      if s = 0 then some s!"gt={showMatBy si (bin A)}" else some s!"gt={showMatBy XRat.str (gtom A s)}"
+      some s!"gt={showMatBy XRat.str (gtom A s)}"
     | "flow_coef_bd" =>
       let r := flowCoef A
       some s!"fc={showVec XRat.str r.1} total_flo={showVec si r.2}"
-    | "participation_coef" => do
-      let ci ← parseVecNat n (← lookup kv "ci")
-      let deg ← lookup kv "degree"
-      let W := if deg == "in" then mtr A else A
-      some s!"P={showVec showRat (participation W ci)}"
-    | "kcore_bu" => do
-      let k ← intArg "k"
-      match kcoreBu A k with
-      | .error e => some (errLine e) | .ok r => some s!"core={showMat r.1} kn={r.2}"
-    | "kcore_bd" => do
-      let k ← intArg "k"
-      match kcoreBd A k with
-      | .error e => some (errLine e) | .ok r => some s!"core={showMat r.1} kn={r.2}"
-    | "score_wu" => do
-      let k ← intArg "k"
-      match scoreWu A k with
-      | .error e => some (errLine e) | .ok r => some s!"core={showMat r.1} kn={r.2}"
-    | "kcoreness_centrality_bu" => (match kcorenessBu A with
-      | .error e => some (errLine e) | .ok r => some s!"coreness={showVec si r.1} kn={showList si r.2}")
-    | "kcoreness_centrality_bd" => (match kcorenessBd A with
-      | .error e => some (errLine e) | .ok r => some s!"coreness={showVec si r.1} kn={showList si r.2}")
     | "rich_club_bu" =>
       let r := richClubBu A
       some s!"R={showList (fun t => t.1.str) r} Nk={showList (fun t => si t.2.1) r} Ek={showList (fun t => si t.2.2) r}"
@@ -520,15 +292,6 @@ def step (line : String) : String :=
       match assortativityBin A f with
       | .error e => some (errLine e) | .ok r => some s!"r={r.str}"
     | "assortativity_wei" => some s!"r={(assortativityWei0 A).str}"
-    | "distance_bin" => (match distanceBin A with
-      | .error e => some (errLine e) | .ok D => some s!"D={showMatBy showOptInt D}")
-    | "efficiency_bin" => (match efficiencyBin A with
-      | .error e => some (errLine e) | .ok E => some s!"E={E.str}")
-    | "subgraph_series" => do
-      let K ← natArg "K"
-      some s!"Cs={showVec showRat (subgraphSeries A K)}"
-    | "reachdist" => (match reachdist A with
-      | .error e => some (errLine e) | .ok r => some s!"R={showMat r.1} D={showMatBy showOptInt r.2}")
     | _ => none
   res.getD "error=protocol"
 
